@@ -33,7 +33,7 @@ import (
 )
 
 type TOp struct {
-	Kind  string `json:"kind"` // parse, run, load (a private set, loaded by the task itself), runv2 (shared v2 script Src)
+	Kind  string `json:"kind"` // parse, run, load (a private set, loaded by the task itself), loadrun (load, then run Name of that private load on Point), runv2 (shared v2 script Src)
 	Src   int    `json:"src,omitempty"`
 	Set   int    `json:"set,omitempty"`
 	Name  string `json:"name,omitempty"`
@@ -42,6 +42,9 @@ type TOp struct {
 }
 
 type Workload struct {
+	// Cold: there is no load phase - every set is first loaded by the tasks themselves (loadrun
+	// operations), so whatever loading installs or caches is first touched while tasks interleave
+	Cold    bool                `json:"cold,omitempty"`
 	Sets    []map[string]string `json:"sets"` // loaded once in the load phase, shared by all tasks
 	Sources []string            `json:"sources"`
 	V2      []string            `json:"v2,omitempty"` // v2 scripts, loaded once and run by several tasks
@@ -122,6 +125,10 @@ func (Prop) Generate(seed uint64, tier string) *core.Plan {
 		nt = 2 + r.Intn(15)
 	}
 	focus := r.Intn(3) // 0 mixed, 1 everyone runs the same script, 2 parse-heavy
+	if r.Intn(6) == 0 {
+		focus = 3 // load-heavy on cold sets: the tasks load the sets themselves and run what they loaded
+		w.Cold = true
+	}
 	fset := r.Intn(nsets)
 	fnames := sortedNames(w.Sets[fset])
 	fname := fnames[r.Intn(len(fnames))]
@@ -131,6 +138,13 @@ func (Prop) Generate(seed uint64, tier string) *core.Plan {
 		for i := 0; i < nops; i++ {
 			c := r.Intn(100)
 			switch {
+			case focus == 3 && c < 75:
+				op := TOp{Kind: "loadrun", Set: r.Intn(nsets), Point: r.Intn(np)}
+				names := sortedNames(w.Sets[op.Set])
+				op.Name = names[r.Intn(len(names))]
+				ops = append(ops, op)
+			case focus == 3:
+				ops = append(ops, TOp{Kind: "parse", Src: r.Intn(nsrc), Reps: 1 + r.Intn(3)})
 			case focus == 1 || (focus == 0 && c < 60):
 				op := TOp{Kind: "run", Set: r.Intn(nsets), Point: r.Intn(np), Reps: 1 + r.Intn(5)}
 				names := sortedNames(w.Sets[op.Set])
@@ -150,6 +164,9 @@ func (Prop) Generate(seed uint64, tier string) *core.Plan {
 		w.Tasks = append(w.Tasks, ops)
 	}
 	w.ConcFirst = r.Intn(2) == 0
+	if w.Cold && r.Intn(4) != 0 {
+		w.ConcFirst = true
+	}
 	p := &core.Plan{Property: "C16", Version: core.HarnessVersion, Seed: seed, Tier: tier,
 		ChooserSeed: simrt.Mix(seed, 16),
 		Rates: simrt.Rates{
@@ -270,6 +287,26 @@ func (sh *shared) doOps(ops []TOp) []string {
 				}
 				okM, errM := engine.ParseScript(src, sh.calls, sh.checks)
 				out = append(out, loadStr(sh.w.Sets[op.Set], okM, errM))
+			case "loadrun":
+				src := map[string]string{}
+				for k, v := range sh.w.Sets[op.Set] {
+					src[k] = v
+				}
+				okM, errM := engine.ParseScript(src, sh.calls, sh.checks)
+				o := loadStr(sh.w.Sets[op.Set], okM, errM)
+				if sc, ok := okM[op.Name]; ok {
+					pt := input.GetPoint()
+					tpl := &sh.w.Points[op.Point]
+					input.InitPt(pt, tpl.Measurement, tpl.TagsCopy(), tpl.Fields(), sh.base)
+					err := sc.Run(pt, nil)
+					var e error
+					if err != nil {
+						e = err
+					}
+					o += "\nrun " + op.Name + ": err=" + errStr(e) + " " + pointStr(pt)
+					input.PutPoint(pt)
+				}
+				out = append(out, o)
 			case "runv2":
 				if op.Src >= len(sh.v2) || sh.v2[op.Src] == nil {
 					out = append(out, "V2 NOT LOADED")
@@ -395,6 +432,11 @@ func (Prop) Run(p *core.Plan) *core.Result {
 	sh.calls, sh.checks = plenv.Tables(nil, nil)
 	// load phase (single task)
 	for _, set := range w.Sets {
+		if w.Cold {
+			sh.loaded = append(sh.loaded, nil)
+			sh.lerrs = append(sh.lerrs, nil)
+			continue
+		}
 		src := map[string]string{}
 		for k, v := range set {
 			src[k] = v
@@ -422,6 +464,11 @@ func (Prop) Run(p *core.Plan) *core.Result {
 		shSolo = &shared{w: &w, base: world.BaseTime, calls: sh.calls, checks: sh.checks}
 		shSolo.loadV2(len(w.Tasks))
 		for _, set := range w.Sets {
+			if w.Cold {
+				shSolo.loaded = append(shSolo.loaded, nil)
+				shSolo.lerrs = append(shSolo.lerrs, nil)
+				continue
+			}
 			src := map[string]string{}
 			for k, v := range set {
 				src[k] = v
